@@ -192,11 +192,18 @@ impl SearchFilters {
     fn special_filter_to_bytes(name: &str, filters: &HashMap<Discriminant<Filter>, Filter>) -> Vec<u8> {
         let mut bytes = Vec::new();
 
-        if !filters.is_empty() {
+        // a filter that encodes to nothing (HasTags without tags) is not part of the group
+        let encoded: Vec<Vec<u8>> = filters
+            .values()
+            .map(Filter::to_bytes)
+            .filter(|filter_bytes| !filter_bytes.is_empty())
+            .collect();
+
+        if !encoded.is_empty() {
             bytes.extend(name.as_bytes());
-            bytes.extend(filters.len().to_string().as_bytes());
-            for filter in filters.values() {
-                bytes.extend(filter.to_bytes());
+            bytes.extend(encoded.len().to_string().as_bytes());
+            for filter_bytes in encoded {
+                bytes.extend(filter_bytes);
             }
         }
 
